@@ -188,4 +188,79 @@ theorem dc_sqrtrem_spec (n N : Nat) (hn : 0 < n) (h1 : B ^ (2 * n) ≤ 4 * N) (h
 
 example : dcSqrtrem 3 (B ^ 6 - 1) = (B ^ 3 - 1, 2 * (B ^ 3 - 1)) := by decide +kernel
 
+/-- mpn_sqrtrem (sqrtrem.c:296-378) for every operand the manual admits (`n ≥ 1`, most significant limb
+    non-zero): `{r1p, ⌈n/2⌉}` is `⌊√u⌋`, `{r2p, retval}` is `u − ⌊√u⌋²`, and the return value is zero
+    exactly for perfect squares.  Composition of `sqrtrem1_spec`, `sqrtrem2_spec'`, `dc_sqrtrem_spec` and
+    `sqrtrem_normalise_ok`; the wrapper and the recursion are value-level models. -/
+theorem mpn_sqrtrem_spec (np : List Nat) (hl : Limbs np) (hne : np ≠ []) (hhi : np.getLastD 0 ≠ 0) :
+    val (sqrtrem np).sp = Nat.sqrt (val np) ∧ (sqrtrem np).sp.length = (np.length + 1) / 2 ∧
+    val (sqrtrem np).rp = val np - Nat.sqrt (val np) * Nat.sqrt (val np) ∧
+    (sqrtrem np).rn = (sqrtrem np).rp.length ∧
+    ((sqrtrem np).rn = 0 ↔ ∃ k, val np = k * k) := sqrtrem_full np hl hne hhi
+
+example : (sqrtrem [5, 0, 1]).sp = [0, 1] ∧ (sqrtrem [5, 0, 1]).rp = [5] ∧ (sqrtrem [5, 0, 1]).rn = 1 := by
+  decide +kernel
+
+/-- mpn_perfect_square_p answers exactly "is `{s1p, n}` a perfect square" (operands with a non-zero most
+    significant limb, which is what its final mpn_sqrtrem call requires): unconditional form of
+    `perfect_square_p_iff`. -/
+theorem mpn_perfect_square_p_spec (up : List Nat) (hl : Limbs up) (hne : up ≠ []) (hn : up.length + 1 < B)
+    (hhi : up.getLastD 0 ≠ 0) : perfectSquareP up = true ↔ ∃ k, val up = k * k :=
+  perfect_square_p_iff up hl hne hn (sqrtrem_full up hl hne hhi).2.2.2.2
+
+/-- mpz_sqrt, mpz_sqrtrem (mpz/sqrt.c, mpz/sqrtrem.c) and mpz_perfect_square_p (mpir.h): negative operands
+    raise the square-root exception, otherwise `⌊√u⌋` and `u − ⌊√u⌋²`; the predicate is true exactly
+    for squares — 0 and 1 included, negatives excluded. -/
+theorem mpz_sqrt_spec (u : Int) :
+    (u < 0 → mpzSqrt u = .error "sqrtneg" ∧ mpzSqrtrem u = .error "sqrtneg") ∧
+    (0 ≤ u → mpzSqrt u = .ok (Nat.sqrt u.toNat : Nat) ∧
+      mpzSqrtrem u = .ok ((Nat.sqrt u.toNat : Nat), ((u.toNat - Nat.sqrt u.toNat * Nat.sqrt u.toNat : Nat) : Int))) ∧
+    (u.toNat + 1 < B ^ (B - 2) → (mpzPerfectSquareP u = true ↔ ∃ k : Int, u = k * k)) := by
+  refine ⟨fun h => by simp [mpzSqrt, mpzSqrtrem, h], fun h => ?_, fun hsz => ?_⟩
+  · by_cases h0 : u = 0
+    · subst h0; simp [mpzSqrt, mpzSqrtrem]
+    · have hpos : u.toNat ≠ 0 := by omega
+      obtain ⟨w1, w2, w3⟩ := natLimbs_wf u.toNat hpos
+      obtain ⟨f1, -, f3, -, -⟩ := sqrtrem_full (natLimbs u.toNat) w2 w1 w3
+      rw [(val_natLimbs u.toNat).1] at f1 f3
+      have hn : ¬ u < 0 := by omega
+      simp only [mpzSqrt, mpzSqrtrem, hn, h0, if_false, f1, f3]
+      exact ⟨trivial, trivial⟩
+  · by_cases hneg : u < 0
+    · have : ¬ u > 0 := by omega
+      simp only [mpzPerfectSquareP, this, if_false]
+      constructor
+      · intro h; simp at h; omega
+      · rintro ⟨k, rfl⟩; exact absurd hneg (not_lt.mpr (mul_self_nonneg k))
+    · by_cases h0 : u = 0
+      · subst h0; simp [mpzPerfectSquareP]
+      · have hpos : u.toNat ≠ 0 := by omega
+        have hgt : u > 0 := by omega
+        obtain ⟨w1, w2, w3⟩ := natLimbs_wf u.toNat hpos
+        have hlen : (natLimbs u.toNat).length + 1 < B := by
+          by_contra hc
+          have h1 := val_getLast _ w1 w2
+          rw [(val_natLimbs u.toNat).1] at h1
+          have h2 : B ^ (B - 2) ≤ B ^ ((natLimbs u.toNat).length - 1) :=
+            Nat.pow_le_pow_right B_pos (by omega)
+          have h3 : 1 * B ^ ((natLimbs u.toNat).length - 1) ≤
+              (natLimbs u.toNat).getLastD 0 * B ^ ((natLimbs u.toNat).length - 1) :=
+            Nat.mul_le_mul_right _ (Nat.pos_of_ne_zero w3)
+          omega
+        have key := mpn_perfect_square_p_spec (natLimbs u.toNat) w2 w1 hlen w3
+        rw [(val_natLimbs u.toNat).1] at key
+        simp only [mpzPerfectSquareP, hgt, if_true]
+        rw [key]
+        constructor
+        · rintro ⟨k, hk⟩; exact ⟨k, by have : (u.toNat : Int) = u := Int.toNat_of_nonneg (by omega); rw [← this, hk]; push_cast; ring⟩
+        · rintro ⟨k, hk⟩
+          refine ⟨k.natAbs, ?_⟩
+          have : (u.toNat : Int) = (k.natAbs * k.natAbs : Nat) := by
+            rw [Int.toNat_of_nonneg (by omega), hk]; push_cast; rcases abs_choice k with h | h <;> rw [h] <;> ring
+          exact_mod_cast this
+
+example : mpzSqrtrem 99 = .ok (9, 18) ∧ mpzSqrt (-1) = .error "sqrtneg" ∧ mpzPerfectSquareP 0 = true ∧
+    mpzPerfectSquareP 1 = true ∧ mpzPerfectSquareP (-4) = false ∧ mpzPerfectSquareP 8 = false := by
+  decide +kernel
+
 end Mpir.Root
